@@ -62,7 +62,7 @@ class C15(Check):
     ASSUMPTIONS = ['items of line framing contain no \\n (stated domain of the property)',
                    'frames fit the prefix size (len < 2**(8*prefix_size))']
     ANCHORS = ['rxsci/framing/line.py', 'rxsci/framing/length_prefix.py']
-    REQUIRED_TAGS = ['line', 'lp1', 'lp2', 'lp4', 'lp8', 'little', 'big', 'empties', 'trunc',
+    REQUIRED_TAGS = ['reentrant-consumer', 'line', 'lp1', 'lp2', 'lp4', 'lp8', 'little', 'big', 'empties', 'trunc',
                      'cut-in-prefix', 'cut-in-frame', 'empty-list', 'empty-item', 'stream>64KiB']
 
     _ops = {}
@@ -249,6 +249,33 @@ class C15(Check):
             return out.fail('unframe-events-after-completion', chunks=chunks)
         if got.out != expected or [type(x) for x in got.out] != [type(x) for x in expected]:
             return out.fail('unframe-mismatch', expected=expected, got=got.out, chunks=chunks)
+        if len(stream) <= 4096 and expected:
+            # A consumer that, while it is handed a frame, runs ANOTHER unframing of the same kind to completion
+            # (nested framing, a flat_map over framed payloads): the parse state of the outer subscription must not
+            # be shared with it.  The inner source is synchronous, so the two really nest.
+            inner_items = list(items[:3])
+            inner_stream = _reference_stream(case, inner_items)
+            inner_chunks = chunking.cut(inner_stream, [c for c in (1, len(inner_stream) // 2) if 0 < c < len(inner_stream)])
+            inner_results = []
+
+            def sync_source(observer, scheduler=None):
+                for c in inner_chunks:
+                    observer.on_next(c)
+                observer.on_completed()
+
+            def reenter(_frame):
+                g = subscribe(rx.create(sync_source).pipe(un), Snap())
+                inner_results.append((g.out, g.done, g.err))
+            import rx.operators as rxops
+            got2 = subscribe(rx.from_(chunks).pipe(un, rxops.do_action(on_next=reenter)), Snap())
+            out.observed['reentrant_unframings'] += len(inner_results)
+            out.tags.append('reentrant-consumer')
+            if got2.err is not None or not got2.done or got2.out != expected:
+                return out.fail('unframe-mismatch-when-the-consumer-unframes-another-stream', expected=expected, got=got2.out, error=repr(got2.err),
+                                chunks=chunks, inner_chunks=inner_chunks)
+            bad = [r for r in inner_results if r[0] != inner_items or not r[1] or r[2] is not None]
+            if bad:
+                return out.fail('nested-unframe-mismatch', expected=inner_items, got=bad[0][0], error=repr(bad[0][2]), inner_chunks=inner_chunks)
         return out
 
     box_done = 0
